@@ -16,7 +16,9 @@ import time
 VERIF = os.path.dirname(os.path.dirname(os.path.abspath(__file__)))
 REPO = os.environ.get('RV_REPO', '/repo')
 CACHE = os.path.join(VERIF, '.cache')
-TARGET_DIR = os.path.join(CACHE, 'target')
+# (one target directory per source path: cargo does not put the executable of another path's package back in place when it
+#  finds that package fresh, so alternating RV_REPO values over one directory would test the wrong binary)
+TARGET_DIR = os.path.join(CACHE, 'target' if REPO == '/repo' else 'target-' + hashlib.sha256(REPO.encode()).hexdigest()[:8])
 NPROC = int(os.environ.get('RV_JOBS', '0')) or (os.cpu_count() or 4)
 
 REDO_NAMES = ['redo-always', 'redo-ifchange', 'redo-ifcreate', 'redo-log', 'redo-ood',
